@@ -672,6 +672,13 @@ def _det(A):
     return det([list(A[i]) for i in range(n)])
 
 
+@implements(_np.linalg.matrix_rank)
+def _matrix_rank(A, *a, **kw):
+    if has_sym(A):
+        raise Unmodelled("np.linalg.matrix_rank on symbolic values")
+    return _np.linalg.matrix_rank(to_float(A), *a, **kw)
+
+
 @implements(_np.unique)
 def _unique(a, axis=None, **kw):
     if has_sym(a):
